@@ -305,7 +305,7 @@ func VerifH_proxy() {
 	if hold && waitsForEOF {
 		hold = false // such a call never ends, directly or proxied
 	}
-	mdv := "v" + strconv.Itoa(vfChoice(2))
+	mdv := "v0"
 	mdvals := []string{mdv}
 	if vfBool() {
 		mdvals = []string{mdv, "second", "third"} // a metadata key with several values: all of them, in order
